@@ -31,3 +31,44 @@ pub struct Check {
 pub fn all() -> Vec<Check> {
     vec![c01::CHECK, c02::CHECK, c03::CHECK, c04::CHECK, c05::CHECK, c06::CHECK, c07::CHECK, c08::CHECK, c09::CHECK, c10::CHECK, c11::CHECK, c12::CHECK, c15::CHECK, c16::CHECK, c17::CHECK, c13::CHECK, c14::CHECK]
 }
+
+/// Oracles run inside the libFuzzer targets (and when an artifact is replayed). Returns the
+/// property, sub-check and message of the first violated oracle.
+pub fn fuzz_oracle(target: &str, case: &Case, st: &mut Stats) -> Result<(), (&'static str, String, String)> {
+    let run = |id: &'static str, f: fn(&str, &Case, &mut Stats) -> Result<(), String>, st: &mut Stats| {
+        f("fuzz", case, st).map_err(|m| (id, "fuzz".to_string(), m))
+    };
+    match target {
+        "fuzz_build" => {
+            run("C07", c07::case_fn, st)?;
+            if case.cfg.regex_crate() {
+                run("C01", c01::case_fn, st)?;
+            }
+            run("C15", c15::case_fn, st)?;
+            Ok(())
+        }
+        _ => {
+            // fuzz_lang: the language-level oracles
+            let mut c = case.clone();
+            c.cfg.colour = false;
+            c.cfg.surrogates = false;
+            let case = &c;
+            let run = |id: &'static str, f: fn(&str, &Case, &mut Stats) -> Result<(), String>, st: &mut Stats| {
+                f("fuzz", case, st).map_err(|m| (id, "fuzz".to_string(), m))
+            };
+            if case.cfg.flag_count() == 0 {
+                run("C02", c02::case_fn, st)?;
+            }
+            if case.cfg.classes() && !case.cfg.no_start && !case.cfg.no_end {
+                run("C03", c03::case_fn, st)?;
+            }
+            if case.cfg.repetitions && !case.cfg.no_start && !case.cfg.no_end {
+                run("C05", c05::case_fn, st)?;
+                run("C13", c13::case_fn, st)?;
+            }
+            run("C08", c08::case_fn, st)?;
+            run("C16", c16::case_fn, st)?;
+            Ok(())
+        }
+    }
+}
